@@ -11,7 +11,7 @@
 (*                        index, ds, as : stacks of byte strings, vfe, vfl : conditional    *)
 (*                        stacks (vfExec, vfElse), early : BOOLEAN, nops, csep, saved,      *)
 (*                        scripts : <<[toks, len]>>, p2sh : BOOLEAN,                        *)
-(*                        st : "run" | "fin" | "err" | "unmodelled"]                        *)
+(*                        st : "run" | "fin" | "err" | "unmodelled" | "toobig"]             *)
 (* One Step = one token of the current script, the per-token limit checks and, at the end   *)
 (* of a script, the switch to the next one (alt stack reset, P2SH re-entry).  "fin" means   *)
 (* all scripts ran; Verdict applies the final truth / clean-stack test.                      *)
@@ -36,6 +36,7 @@ Push(s, x) == Append(s, x)
 \* results of executing one opcode
 E == [k |-> "err"]
 U == [k |-> "unmodelled"]
+TooBig == [k |-> "toobig"]                 \* an item above ModelLimit would have to be built
 S(vm) == [k |-> "ok", vm |-> vm]
 R(vm) == [k |-> "ret", vm |-> vm]           \* post-Genesis top-level OP_RETURN: script ends now
 DS(vm, ds) == S([vm EXCEPT !.ds = ds])
@@ -176,7 +177,7 @@ Exec(vm, cx, t, fExec, orc) ==
                     m == MinEncode(Top(ds, 2)) IN
                 IF k < 0 \/ k > MaxElem(cx) THEN E
                 ELSE IF Len(m) > k THEN E
-                ELSE IF k > ModelLimit THEN U
+                ELSE IF k > ModelLimit THEN TooBig
                 ELSE IF Len(m) = k THEN DS(vm, Push(Pop(ds, 2), m))
                 ELSE IF m = <<>> THEN DS(vm, Push(Pop(ds, 2), Zeros(k)))
                 ELSE LET last == m[Len(m)] IN
@@ -299,6 +300,7 @@ Step(vm, cx, orc) ==
          IN
          IF r.k = "err" THEN Bad(vm)
          ELSE IF r.k = "unmodelled" THEN [vm EXCEPT !.st = "unmodelled"]
+         ELSE IF r.k = "toobig" THEN [vm EXCEPT !.st = "toobig"]
          ELSE IF r.k = "ret" THEN EndScript(r.vm, cx)
          ELSE IF Len(r.vm.ds) + Len(r.vm.as) > MaxStack(cx) THEN Bad(vm)
          ELSE IF vm.pc < Len(toks) THEN [r.vm EXCEPT !.pc = vm.pc + 1]
